@@ -238,7 +238,9 @@ def judge(out, prog, it, oc, exc, ctx):
 class C11(Check):
     pid = 'C11'
     level = 'fault_enumeration'
-    rule = ('1-2 producers and 1-4 consumers of one Channel: iterating consumers with per-message processing delay '
+    rule = ('[also: negative start times, consumers paced by absolute dates, prepared puts, falsy messages (None, 0, ""), a second '
+            'subscription inside an iteration, close() by another activity in the step of the last put] '
+            '1-2 producers and 1-4 consumers of one Channel: iterating consumers with per-message processing delay '
             '(slow/fast), bounded iteration (early break), single `await channel`, consumers inside until(); '
             'subscription points before/between/in the same turn as puts; optional enclosing until(), an outside '
             'consumer, final close; Task.cancel injected at sampled (thorough: all) boundaries of the consumers. '
